@@ -54,6 +54,7 @@ type World struct {
 	AllDecls   []*Decl
 	Problems   []string
 	mutGlobals map[*types.Var]bool
+	UnitBudget int // seconds of symbolic execution per unit
 }
 
 var libPkgs = []string{"SolarUtil", "LunarUtil", "ShouXingUtil", "HolidayUtil", "TaoUtil", "FotoUtil", "calendar"}
@@ -171,6 +172,48 @@ func loadWorld() (*World, error) {
 	for _, pk := range w.Order {
 		if err := w.recheck(pk); err != nil {
 			return nil, err
+		}
+	}
+	// sweep declarations -> synthetic safety-only contracts
+	for _, pk := range w.Order {
+		for _, d := range pk.Decls {
+			if d.Kind != "sweep" {
+				continue
+			}
+			for _, tn := range d.Estab {
+				obj := pk.Types.Scope().Lookup(tn)
+				if obj == nil {
+					w.Problems = append(w.Problems, fmt.Sprintf("%s:%d: sweep: unknown type %s", d.File, d.Line, tn))
+					continue
+				}
+				ms := types.NewMethodSet(types.NewPointer(obj.Type()))
+				for i := 0; i < ms.Len(); i++ {
+					f, ok := ms.At(i).Obj().(*types.Func)
+					if !ok || !f.Exported() {
+						continue
+					}
+					sig := f.Type().(*types.Signature)
+					if sig.Params().Len() != 0 {
+						continue
+					}
+					name := tn + "." + f.Name()
+					if _, has := w.Contracts[pk.Name+"."+name]; has {
+						// an explicit contract exists: tag it for the sweeping property as well
+						cd := w.Contracts[pk.Name+"."+name]
+						for _, t := range d.Tags {
+							if !hasTag(cd.Tags, t) {
+								cd.Tags = append(cd.Tags, t)
+							}
+						}
+						continue
+					}
+					if pk.Funcs[name] == nil {
+						continue
+					}
+					sd := &Decl{Kind: "func", Pkg: pk.Path, PkgName: pk.Name, File: d.File, Line: d.Line, Name: name, Recv: tn, Tags: d.Tags, Sweep: true, Clauses: d.Clauses}
+					w.AllDecls = append(w.AllDecls, sd)
+				}
+			}
 		}
 	}
 	return w, nil
@@ -749,6 +792,13 @@ func (w *World) recheck(pk *Pkg) error {
 				fmt.Fprintf(&sb, "func %s(%s) %s { return %s }\n", c.FnName, d.Params, rt, c.Text)
 			}
 			fmt.Fprintf(&sb, "func %s(%s) {\n%s}\n", d.Name, d.Params, useAllLocals(d.Body))
+		case "sweep":
+			if d.Body != "" {
+				cn++
+				fn := fmt.Sprintf("__c%d_sweep_%s", cn, d.Estab[0])
+				fmt.Fprintf(&sb, "func %s(self *%s) bool { return %s }\n", fn, d.Estab[0], d.Body)
+				d.Clauses = []*Clause{{Kind: "requires", Text: d.Body, FnName: fn, Line: d.Line}}
+			}
 		case "type":
 			for _, c := range d.Clauses {
 				if c.Kind != "invariant" {
